@@ -2,14 +2,28 @@ PROPS["C14"] = {
         "families": {"val": {"quick": 150, "thorough": 6000}},
         "independent_ops": True,
         "claim": "Theorems (Lean kernel): int write/read round trip for every 64-bit value, int acceptance = FIX grammar, exact value up to 18 digits, "
-                 "boolean both directions + grammar, float acceptance = grammar, timestamp write/read at four precisions for every valid civil instant of years 0-9999, "
+                 "boolean both directions + grammar, float acceptance = grammar and below the overflow threshold, "
+                 "float VALUE: binary64 modelled as exact integer arithmetic; every accepted text is read as the nearest double (ties to even) of the rational it denotes, "
+                 "sign kept also on zero, for every byte string (C14_float_read_nearest, C14_float_ok_iff); the declarative nearest-even reading determines the bits "
+                 "(C14_float_nearest_unique), hence any written text whose declarative reading is the value reads back as exactly that value (C14_float_write_read_model); "
+                 "the model's writer (shortest digits that read back, closest, ties to even, printed positionally) round-trips for every finite 64-bit pattern "
+                 "(C14_float_write_read) and its outputs are reproduced by read-then-write (C14_float_read_write); "
+                 "timestamp write/read at four precisions for every valid civil instant of years 0-9999, "
                  "timestamp read/write and acceptance = the strict UTCTimestamp grammar, string identity, decimal write/read (written text reads back as the value "
                  "rounded half away from zero to the field's scale; unsigned decimals cut toward zero) and canonical decimal read/write. "
-                 "Correspondence only: float values (strconv), decimal exponent notation, udecimal's 19-digit limit.",
-        "note": "Lean kernel + propext/Classical.choice/Quot.sound; the model of fix_int.go/fix_boolean.go/fix_float.go(acceptance)/fix_utc_timestamp.go is tied to the code by "
-                "running both on the same generated texts each run; strconv/time.Parse/shopspring internals are executed, not modelled",
+                 "Monitor on the implementation, every run: float read returns the declaratively nearest bits; float write yields a text of the grammar in %f-canonical form "
+                 "that reads back (declaratively) to the same bits, and no text with one significant digit fewer, nor a closer one of the same length, does. "
+                 "Correspondence only: that strconv's digits equal the model writer's (that the model writer's text is the shortest possible is stated, "
+                 "C14_float_write_shortest_full, not proved), decimal exponent notation, udecimal's 19-digit limit.",
+        "note": "Lean kernel + propext/Classical.choice/Quot.sound; the model of fix_int.go/fix_boolean.go/fix_float.go(syntax, value read as 64-bit pattern, text written)/fix_utc_timestamp.go is tied to the code by "
+                "running both on the same generated texts each run; strconv.ParseFloat/FormatFloat are modelled by their contract (correct rounding; shortest round-tripping digits), time.Parse/shopspring internals are executed, not modelled",
         "rule": "seeded generation per value type: short strings over the type's alphabet plus near-miss characters, canonical texts, "
-                "boundary values, calendar grid with single defects, random bytes; distinct = distinct (op,input) pairs",
-        "assumptions": ["float values and shortest representation are strconv's; decimal arithmetic of shopspring/udecimal is modelled for non-positive exponents only (no 1e5 notation) and tied by correspondence",
+                "boundary values, calendar grid with single defects, random bytes; floats: whole numbers of 15-25 digits around 2^53, 2^63, 2^64, 10^19, 10^22, "
+                "fractions of up to 30 digits, exact halfway points between adjacent doubles and one unit to either side, positional texts at the overflow and subnormal limits, "
+                "signed zeros; float write: random finite bit patterns, whole-valued doubles, powers of two and ten, subnormals, each written text read back; "
+                "distinct = distinct (op,input) pairs",
+        "assumptions": ["float: FIXFloat is a Go float64 = IEEE-754 binary64 and math.Float64bits exposes its pattern; strconv's digit generation is tied to the model's "
+                        "shortest-closest writer by correspondence, not by proof; NaN/Inf are never written (Read cannot produce them)",
+                        "decimal arithmetic of shopspring/udecimal is modelled for non-positive exponents only (no 1e5 notation) and tied by correspondence",
                         "time.Parse/Format modelled for the four FIX layouts only"],
     }
